@@ -70,6 +70,11 @@ def dispatch (line : String) : String :=
     | "mboxparse" => C17.mboxparseOp args
     | "date" => C17.dateOp args
     | "dparse" => C17.dparseOp args
+    | "mboxctor" => (match args with
+        | [_, _, "11"] => "ok"
+        | [_, _, "PANIC"] => "PROPFAIL panic"
+        | [_, _, f] => s!"PROPFAIL mailbox-constructors-give-different-values:{f}"
+        | _ => "BADLINE")
     | "typed" => C17.typedOp args
     | "build" => C17.buildOp args
     | "hdrs" => C02.hdrsOp args
